@@ -113,6 +113,10 @@ def compare(p, sv, rv):
     # 1. executed-statement trace (control-flow path), call depth, scope-depth consistency
     st = sv["tr"]
     ev = rv.get("ev") or []
+    # the definitions of a text (如何… / 定义… / 如何新建… headers) are statements of their own, executed when the text is loaded;
+    # the control-flow trace of the model starts after them
+    hdr = set((int(k[1:].split(":")[0]), v_) for k, v_ in lmap.items() if k.startswith("H"))
+    ev = [e for e in ev if (e.get("m", 0), e["l"]) not in hdr]
     n = min(len(st), len(ev))
     div = None
     evl = (lambda e: (e.get("m", 0), e["l"])) if multi else (lambda e: e["l"])
